@@ -517,6 +517,110 @@ def oracle_prefix_net(L, nw):
 # ---- end audit round 1 ----
 
 
+# ---- round 3 c05d: (b) through the length fallbacks, whole resumed packet (C05_lax_prefix_resumed) ----
+_EXT1 = re.compile(r"^macsec\((\d+\+\d+),(un|mod)\((\d),(?:(\d+),(\w+),)?")
+
+
+def resumed_class(rw):
+    """histogram class of pwire3's answer: the chain of fallbacks (m = MACsec, i = IP) and the leaf"""
+    ks = []
+    while rw.startswith("fb "):
+        head, _, rw = rw.partition(" -> ")
+        ks.append("m" if ",MacsecPacket," in head else "i")
+    return "fb[%s]->%s" % ("".join(ks), rw.split(" ", 1)[0]) if ks else rw.split(" ", 1)[0]
+
+
+def oracle_resumed(ent, L, rw):
+    """C05_lax_prefix_resumed on the implementation: `rw` = rendering of pwire3 (Parse/LaxWire3.v).  Only
+    answers that contain a fallback are checked here (the others are oracle_prefix / oracle_prefix_net's).
+      fb e inc=b @@ Q -> R : Q is a prefix of the strictified lax result; MACsec: the link extension at
+                             index |exts Q| is a MACsec header with incomplete=b (and len_source slice if
+                             unmodified); IP: the network layer has incomplete=b, len_source slice; then R
+      acc P               : the strictified lax result IS P (link, exts, net, tr), stop=none
+      rej e @@ Q          : Q is a prefix of the strictified lax result (the fault itself: older clauses)
+      rejnet (e)@t net=N @@ Q : Q prefix, network layer N, stop (e)@t, no transport
+    returns None | (why, class)"""
+    if not rw.startswith("fb "):
+        return None
+    if not L.startswith("ok"):
+        return ("(b-res) length fallback (%s) but lax is '%s'" % (rw, L), None)
+    sl, _, stop = strictify(L)
+    ml = _PKT.search(sl)
+    mlx = _PKT.search(L)
+    if not ml or not mlx:
+        return ("(b-res) cannot parse '%s'" % L, None)
+    ll, lx, ln, lt = ml.groups()
+    lxs = [x for x in lx.split(";") if x]
+    lxs_flag = [x for x in mlx.group(2).split(";") if x]
+
+    def prefix(q_txt):
+        mq = _PKT.search(q_txt)
+        if not mq:
+            return "cannot parse '%s'" % q_txt
+        ql, qx, qn, qt = mq.groups()
+        qxs = [x for x in qx.split(";") if x]
+        if ql != ll or lxs[:len(qxs)] != qxs or qn not in ("none", ln) or qt not in ("none", lt):
+            return "layers '%s' are not a prefix of the lax result '%s'" % (q_txt, L)
+        return None
+
+    cur = rw
+    while cur.startswith("fb "):
+        head, _, cur = cur.partition(" -> ")
+        e_txt, _, q_txt = head[3:].partition(" @@ ")
+        e_txt, _, inc = e_txt.rpartition(" inc=")
+        why = prefix(q_txt)
+        if why:
+            return ("(b-res) fallback %s: %s" % (e_txt, why), None)
+        if ",MacsecPacket," in e_txt:
+            k = len([x for x in _PKT.search(q_txt).group(2).split(";") if x])
+            mx = _EXT1.match(lxs_flag[k]) if k < len(lxs_flag) else None
+            if not mx or mx.group(3) != inc or (mx.group(2) == "un" and mx.group(5) != "slice"):
+                return ("(b-res) MACsec short-length fallback %s: link extension %d of '%s' must be a MACsec header "
+                        "with incomplete=%s, len_source slice" % (e_txt, k, L, inc), None)
+        else:
+            fl = _PLFLAGS.search(mlx.group(3))
+            if not fl or fl.group(1) != inc or fl.group(2) != "slice":
+                return ("(b-res) IP length fallback %s: network layer of '%s' must have incomplete=%s, len_source slice"
+                        % (e_txt, L, inc), None)
+    if cur.startswith("acc "):
+        ma = _PKT.search(cur)
+        if not ma or ma.groups() != (ll, lx, ln, lt) or stop != "none":
+            return ("(b-res) resumed strict decoding accepts with '%s' but lax returned '%s'" % (cur[4:], L), None)
+        return None
+    if cur.startswith("rejnet "):
+        body, _, q_txt = cur.partition(" @@ ")
+        why = prefix(q_txt)
+        m = _NW_REJNET.match(body)
+        mn = _LNET.search(L)
+        if not why and (not m or not mn):
+            why = "cannot parse '%s'" % cur
+        if not why and (mn.group(1) != m.group(2) or mn.group(3) != m.group(1) or mn.group(2) != "none"):
+            why = "resumed decoding fails inside the network layer (%s) but lax is '%s'" % (body, L)
+        return ("(b-res) " + why, None) if why else None
+    if cur.startswith("rej "):
+        e_txt, _, q_txt = cur[4:].partition(" @@ ")
+        why = prefix(q_txt)
+        if not why and not is_fallback(parse_err(e_txt)):
+            # lax_outcome: the same record (length source: the reference's, or slice, or F7) on a fitting tag;
+            # faults of the IP header as a group (same_fault)
+            ms = _STOP.match(stop)
+            why = ("resumed decoding rejects with %s but lax has no stop error: '%s'" % (e_txt, L)) if not ms \
+                else same_fault(parse_err(e_txt), parse_err(ms.group(1)), ms.group(2), True)
+        if why and f10_shape_resumed(e_txt):
+            return None
+        return ("(b-res) resumed decoding: " + why, None) if why else None
+    return ("(b-res) cannot parse '%s'" % rw, None)
+
+
+def f10_shape_resumed(e_txt):
+    """known finding F10 inside a resumed decoding: the strict reference rejects the header of the version the
+    ether type announced (the older clauses classify the top-level case; here the rejection sits behind a
+    fallback, where lax decodes the other version)"""
+    e = parse_err(e_txt)
+    return (e[0] == "content" and e[1] in ("Ipv4Version", "Ipv6Version")) or (e[0] == "len" and e[4] == "Ipv6Header")
+# ---- end round 3 c05d ----
+
+
 def compare(ctx, cases, impl, model_lines):
     corr, orc = [], []
     hist = {}
@@ -525,9 +629,13 @@ def compare(ctx, cases, impl, model_lines):
     for i, c in enumerate(cases):
         ent, h = c.split()
         data = bytes.fromhex(h) if h != "-" else b""
-        m = w = lw = pw = nw = None
+        m = w = lw = pw = nw = rw = None
         if model_lines is not None:
             ml = model_lines[i]
+            if " |R " in ml:            # round 3 c05d
+                ml, rw = ml.rsplit(" |R ", 1)
+                k = "%s:reference3 %s" % (ent.split(":")[0], resumed_class(rw))
+                hist[k] = hist.get(k, 0) + 1
             if " |N " in ml:            # audit round 1
                 ml, nw = ml.rsplit(" |N ", 1)
                 k = "%s:reference2 %s" % (ent.split(":")[0], net_class(nw))
@@ -567,6 +675,8 @@ def compare(ctx, cases, impl, model_lines):
                 o = oracle_prefix(ent, L, pw)
             if not o and nw is not None:    # audit round 1
                 o = oracle_prefix_net(L, nw)
+            if not o and rw is not None:    # round 3 c05d
+                o = oracle_resumed(ent, L, rw)
             if not o and hdrs:
                 LH, _, SH = hdrs.partition(" ## ")
                 o = oracle_headers(ent, data, LH, SH)
